@@ -36,7 +36,8 @@ def normalize(view: str, entries: typing.List[crawl.Entry], gemlike: bool) -> ty
         if e.local is None:
             out.append(("info", name))
         elif e.local:
-            out.append(("search" if (e.search or e.type == "7") else "local", name, e.selector))
+            # (the empty selector is the root menu, like "/")
+            out.append(("search" if (e.search or e.type == "7") else "local", name, e.selector or b"/"))
         else:
             tgt = norm_remote(e.url)
             if tgt[0] == "gopher" and tgt[1] == driver.SERVER_NAME.encode() and tgt[2] == crawl.LOCAL_PORT:
@@ -49,6 +50,10 @@ def normalize(view: str, entries: typing.List[crawl.Entry], gemlike: bool) -> ty
 
 def listing(chk: Check, site: driver.Site, view: str, sel: bytes):
     req, tls = reqs.render(view, sel)
+    # relative references in the page resolve against the page's own URL path, as in a browser
+    import urllib.parse
+    crawl.CURRENT_PAGE_PATH = (reqs.WAPTOP.rstrip("/") if reqs.VIEWS[view][0] == "wap" and view != "wapauto" else "") + \
+        urllib.parse.quote(sel, safe="/")
     resp = site.request(req, tls=tls)
     v = validate.validate(resp, req)
     if resp.escaped or not v.ok or v.klass not in ("menu", "info", "any"):
